@@ -35,4 +35,9 @@ def run(tier):
                             "judged by TLC (Judge_Hist)")
     from ..mgmmodel import model_part
     model_part(v, tier, ["CostMonotone", "MoveAlone"], CLAUSES, ["c03"], seed_off=3)
+    # MGM2: Mgm2.tla, same treatment; CostMonotone is checked on the cycles without an accepted coordinated offer (it fails in the
+    # others: known finding, which the thorough tier regenerates from the model by checking the unrestricted invariant)
+    from ..mgm2model import model_part as mgm2_part
+    mgm2_part(v, tier, ["CostMonotoneSolo", "MoveAlone"], CLAUSES, ["c03"], seed_off=3,
+              regen=None if tier == "quick" else ("C03_mgm2_pair.json", "CostMonotone", 3))
     return v.finish()
